@@ -42,11 +42,233 @@ def W(st, extra=()):
 def run(chk):
     ix, cg = chk.ix, chk.cg
     chk.trusted = TRUSTED
-    r10_1_buffer(chk)
-    r10_3_byte_writer(chk)
-    r10_4_chunk_validator(chk)
-    r10_5_tiling(chk)
-    r10_6_param_flow(chk)
+    chk.guard(r10_1_buffer, chk)
+    chk.guard(r10_2_whole_records, chk)
+    chk.guard(r10_3_byte_writer, chk)
+    chk.guard(r10_4_chunk_validator, chk)
+    chk.guard(r10_5_tiling, chk)
+    chk.guard(r10_6_param_flow, chk)
+    chk.guard(r10_6_chunk_size_only_forwarded, chk)
+
+
+def r10_2_whole_records(chk):
+    """Each thing handed to the output buffer is one whole visible record (header and segment together): a flush can
+    then only fall between records.  = C01 R01.7 on the interpreted record loop."""
+    from . import c01
+    from ..segmodel import shared_model
+    m = shared_model(chk.ix, chk.cg)
+    if m.error is not None:
+        raise m.error
+    n0 = len(chk.obs)
+    c01.r01_7_visible_record(chk, m)
+    for o in chk.obs[n0:]:
+        o.rule = "R10.2"
+        o.nontrivial = False
+
+
+def r10_6_chunk_size_only_forwarded(chk):
+    """Package-wide forwarding closure of write()'s input_chunk_size: every function parameter (and instance field) the
+    value is handed to - also inside a keyword mapping (`**kwargs`, `dict(chunk_size=...)`), tracked per key.  Outside
+    the chunk generator (and what only it calls) the value may only be handed on, stored in a field, validated (by a
+    function that does nothing but refuse) or logged; any other use - a condition, arithmetic, a slice, an argument of
+    something that is not resolved - lets the chunk size influence what is written."""
+    from ..terms import subterms, pp, call_name, refusal_literals, passed_refusal
+    ix, te, cg = chk.ix, chk.terms, chk.cg
+    write = ix.get_method("DLISFile", "write")
+    consumer = ix.get_method("SourceDataWrapper", "make_chunked_generator")
+    if write is None or consumer is None or "input_chunk_size" not in write.param_names:
+        raise AnalysisError("DLISFile.write(input_chunk_size) / SourceDataWrapper.make_chunked_generator not found")
+    consumer_side = set(cg.reachable([consumer]))
+    # a root is ("param", p)  |  ("attr", self, field)  |  ("dictkey", p, key): the value sits under `key` in mapping p
+    work = [(write, ("param", "input_chunk_size"))]
+    seen = set()
+    reached_consumer = False
+
+    def validator(g):
+        su = te.summary(g)
+        return all(e.kind in ("raise", "call") and (e.kind == "raise" or call_name(e.value) in
+                                                    ("debug", "info", "warning")) for e in su.effects) and \
+            all(t == ("const", None) for _, t, _ in su.returns)
+
+    def spellings(name):
+        return (("param", name), ("free", name), ("param", "**" + name), ("param", "*" + name))
+
+    def forward_into(g, c, roots, key):
+        """Where the tainted value lands in callee g of call term c: [(g, root)].  `key` is None for a plain value, or
+        the key under which it sits in a mapping named by `roots`."""
+        out = []
+        a = g.node.args
+        named = [x.arg for x in a.posonlyargs + a.args + a.kwonlyargs]
+        pos = [x.arg for x in a.posonlyargs + a.args]
+        if g.parent is None and g.cls is not None and g.kind != "staticmethod" and pos:
+            pos = pos[1:]
+        kwname = a.kwarg.arg if a.kwarg else None
+
+        def land(pname, sub_key):
+            out.append((g, ("param", pname) if sub_key is None else ("dictkey", pname, sub_key)))
+        for i_, v in enumerate(c[2]):
+            if i_ < len(pos) and v in roots:
+                land(pos[i_], key)
+            elif i_ < len(pos) and v[0] == "dict" and key is None:
+                for dk, dv in v[1]:
+                    if dv in roots and dk[0] == "const":
+                        land(pos[i_], dk[1])
+        for kname, v in c[3]:
+            if kname is None:
+                inner = v[1] if v[0] == "dstar" else v
+                if inner in roots and key is not None:
+                    # **mapping: the entry goes to the parameter of that name, or on into the callee's own **mapping
+                    if key in named:
+                        land(key, None)
+                    elif kwname:
+                        land(kwname, key)
+                elif inner[0] == "dict" and key is None:
+                    for dk, dv in inner[1]:
+                        if dv in roots and dk[0] == "const":
+                            if dk[1] in named:
+                                land(dk[1], None)
+                            elif kwname:
+                                land(kwname, dk[1])
+            elif v in roots:
+                if kname in named:
+                    land(kname, key)
+                elif kwname and key is None:
+                    land(kwname, kname)
+            elif v[0] == "dict" and key is None and kname in named:
+                for dk, dv in v[1]:
+                    if dv in roots and dk[0] == "const":
+                        land(kname, dk[1])
+        return out
+    while work:
+        f, root = work.pop()
+        if (f, root) in seen:
+            continue
+        seen.add((f, root))
+        if f in consumer_side:
+            reached_consumer = reached_consumer or f is consumer
+            continue
+        for fn in [f] + [h for h in f.nested.values() if hasattr(h, "node")]:
+            su = te.summary(fn)
+            if root[0] == "param":
+                roots, key = spellings(root[1]), None
+            elif root[0] == "dictkey":
+                roots, key = spellings(root[1]), root[2]
+            else:
+                roots, key = (root,), None
+
+            def mentions(t, roots=roots):
+                return isinstance(t, tuple) and any(x in roots for x in subterms(t))
+            handled, quiet = set(), set()     # calls that pass the value on / validate or log it
+            for c in su.all_calls():
+                args = list(c[2]) + [v for _, v in c[3]]
+                if not any(mentions(a_) for a_ in args):
+                    continue
+                nm = call_name(c)
+                if nm in ("debug", "info", "warning", "error") and c[1][0] == "attr":
+                    handled.add(c)
+                    quiet.add(c)
+                    continue
+                if nm == "partial" and c[2]:
+                    tgt = c[2][0]
+                    g2 = fn.cls.lookup(tgt[2]) if tgt[0] == "attr" and tgt[1] in spellings("self") and fn.cls else None
+                    if g2 is not None:
+                        rest = ("call", tgt, c[2][1:], c[3])
+                        landed = forward_into(g2, rest, roots, key)
+                        if landed:
+                            work.extend(landed)
+                            handled.add(c)
+                            continue
+                tg = su.calls.get(c, ()) if c in su.precise else ()
+                if len(tg) == 1 and validator(tg[0]):
+                    handled.add(c)
+                    quiet.add(c)
+                    continue
+                if len(tg) == 1:
+                    landed = forward_into(tg[0], c, roots, key)
+                    if landed:
+                        work.extend(landed)
+                        handled.add(c)
+                        continue
+                if c[1] == ("global", "dict") or nm in ("items", "keys", "values", "copy") and key is not None:
+                    continue
+            if key is None:
+                for e in su.effects:
+                    if e.kind == "store_attr" and e.value in roots and e.base in spellings("self")[:1] and fn.cls is not None:
+                        for g in ix.functions.values():
+                            if g.cls is not None and (g.cls is fn.cls or fn.cls in g.cls.mro()) and g is not fn and \
+                                    any(x == ("attr", ("param", "self"), e.key) for t_ in _terms_of(te.summary(g))
+                                        for x in subterms(t_)):
+                                work.append((g, ("attr", ("param", "self"), e.key)))
+            refusal = refusal_literals(su)
+            for where_, t in _labelled_terms(su):
+                if not mentions(t):
+                    continue
+                if isinstance(where_, tuple):
+                    if where_[1] in quiet:
+                        continue          # the condition under which a validation / log call is made
+                    where_ = "condition"
+                if where_ == "condition" and (t in refusal or passed_refusal(t, refusal)):
+                    continue
+                if where_ == "raise":
+                    continue              # the message of a refusal
+                if where_ == "store" and t in roots:
+                    continue
+                t2 = t
+                for c in handled:
+                    t2 = _strip(t2, c)
+                if key is not None:
+                    # of a mapping only the tainted entry counts: m['key'] / m.get('key') / m.pop('key')
+                    hit = [x for x in subterms(t2) if
+                           (x[0] == "sub" and x[1] in roots and x[2] == ("const", key)) or
+                           (x[0] == "call" and x[1][0] == "attr" and x[1][1] in roots and x[1][2] in ("get", "pop")
+                            and x[2] and x[2][0] == ("const", key))]
+                    if not hit:
+                        continue
+                if mentions(t2):
+                    chk.fail("R10.6", f"chunk-size-used:{fn.short}:{where_}",
+                             f"{fn.short} uses the input chunk size in `{pp(t2)[:70]}` ({where_}): outside the chunk "
+                             f"generator it may only be handed on, so that it cannot influence what is written",
+                             fn.where)
+    chk.require(reached_consumer, "R10.6", "chunk-size-reaches-the-chunk-generator",
+                "the input chunk size given to write() never reaches SourceDataWrapper.make_chunked_generator", write.where)
+    chk.info["chunk_size_forwarding_closure"] = sorted({f"{f.short}:{r[1] if r[0] != 'attr' else 'self.' + r[2]}"
+                                                        + (f"[{r[2]!r}]" if r[0] == "dictkey" else "") for f, r in seen})
+    chk.floor("functions in the chunk-size forwarding closure", len({f for f, _ in seen}), 4)
+
+
+def _terms_of(su):
+    for _, t in _labelled_terms(su):
+        yield t
+
+
+def _labelled_terms(su):
+    for pc, t, _ in su.returns:
+        yield "return", t
+        for c in pc:
+            yield "condition", c
+    for pc, t, _ in su.raises:
+        for c in pc:
+            yield "condition", c
+    for pc, t, _n, _ctx in su.yields:
+        yield "yield", t
+    for e in su.effects:
+        for c in e.pc:
+            yield ("condition-of-call", e.value) if e.kind == "call" else "condition", c
+        for lp in e.loops():
+            if isinstance(lp[2], tuple):
+                yield "loop", lp[2]
+        if e.kind in ("store_attr", "store_sub"):
+            yield "store", e.value
+            if isinstance(e.key, tuple):
+                yield "index", e.key
+        elif e.kind in ("call", "raise"):
+            yield e.kind, e.value
+
+
+def _strip(t, c):
+    """t with every occurrence of call term c replaced by a placeholder."""
+    from ..terms import rebuild
+    return rebuild(t, lambda x: ("const", "<forwarded>") if x == c else x) if isinstance(t, tuple) else t
 
 
 # ---------------------------------------------------------------------------------------------------- R10.1 / R10.2
